@@ -211,19 +211,75 @@ def parse_targets(M, mod):
     return res
 
 
-def cdr_groups_finding(M):
-    """Obis.to_group_cdr_str interpolates groups 2, 3, 4 (C, D, E) in that order; returns None if fine, else text"""
-    fn = M.funcs.get("obis.Obis.to_group_cdr_str")
-    if fn is None:
-        return "anchor vanished: Obis.to_group_cdr_str"
-    ps = Engine(M).run(fn)
-    if len(ps) != 1 or ps[0].ret is None or ps[0].ret[0] != "fstr":
-        return "to_group_cdr_str is not a single f-string"
-    idx = [x[1][2][1] for x in ps[0].ret[1] if x[0] == "val" and x[1][0] == "sub" and x[1][2][0] == "c"]
-    lits = [x[1] for x in ps[0].ret[1] if x[0] == "lit"]
-    if idx != [2, 3, 4] or lits != [".", "."]:
-        return f"the C.D.E string is built from groups {idx} with separators {lits} instead of groups 2, 3, 4 joined by '.'"
+def obis_groups_field(M):
+    """the field of Obis that holds the six value groups: the attribute the constructor assigns its parameter to"""
+    c = M.classes.get(("obis", "Obis"))
+    init = c.methods.get("__init__") if c else None
+    if init is None or not init.params:
+        return None
+    for n in ast.walk(init.node):
+        if isinstance(n, (ast.Assign, ast.AnnAssign)) and isinstance(n.value, ast.Name) and n.value.id == init.params[0]:
+            t = n.targets[0] if isinstance(n, ast.Assign) else n.target
+            if isinstance(t, ast.Attribute):
+                return t.attr
     return None
+
+
+def canon_text(term):
+    """flatten text-building terms (f-strings, str(), '.'.join) into a list of parts"""
+    from sa.sveval import Res
+    if isinstance(term, str):
+        return [term] if term else []
+    if isinstance(term, Res) and term.op == "fstr":
+        out = []
+        for a in term.args:
+            out += canon_text(a)
+        return out
+    if isinstance(term, Res) and term.op == "str" and len(term.args) == 1:
+        return canon_text(term.args[0])
+    if isinstance(term, Res) and term.op == "join" and len(term.args) == 2 and isinstance(term.args[0], str) and isinstance(term.args[1], (list, tuple)):
+        out = []
+        for k, a in enumerate(term.args[1]):
+            if k:
+                out.append(term.args[0])
+            out += canon_text(a)
+        return out
+    if isinstance(term, Res) and term.op == "Add" and len(term.args) == 2:
+        return None  # commutative normal form lost the order
+    return [term]
+
+
+def cdr_groups_finding(M):
+    """Obis.to_group_cdr_str gives "<C>.<D>.<E>" for symbolic value groups (E-ABS); returns None if fine, else text"""
+    from sa.abseval import AbsEval, AObj, Sym
+    fn = M.funcs.get("obis.Obis.to_group_cdr_str")
+    gf = obis_groups_field(M)
+    if fn is None or gf is None:
+        return "anchor vanished: Obis.to_group_cdr_str / the groups field"
+    g = tuple(Sym(x, "int") for x in "ABCDEF")
+    r = AbsEval(M).apply(fn, [AObj("Obis", {gf: g}, cls_key=("obis", "Obis"))])
+    if r[0] != "value":
+        return f"to_group_cdr_str could not be evaluated on symbolic groups ({r[0]}: {r[1]})"
+    got = canon_text(r[1])
+    if got != [g[2], ".", g[3], ".", g[4]]:
+        return f"the C.D.E string is built as {r[1]!r} instead of groups C, D, E joined by '.'"
+    return None
+
+
+def ref_cdr(code):
+    """reference: groups C.D.E of a six-group OBIS code written with any of the standard separators"""
+    parts = code.replace("-", ".").replace(":", ".").replace("*", ".").split(".")
+    return ".".join(parts[2:5])
+
+
+def obis_hook(args, kw):
+    """summary of Obis.from_string for E-ABS (the parser itself is C20): an object whose C.D.E string is that of the code"""
+    from sa.abseval import AObj
+    from sa.sveval import Res
+    code = args[0]
+    if isinstance(code, str):
+        return AObj("Obis", {"to_group_cdr_str": (lambda c=code: ref_cdr(c))})
+    return AObj("Obis", {"to_group_cdr_str": (lambda c=code: Res("cdr", c))})
 
 
 # ------------------------------------------------------------------------------------------------ role resolution of private helpers
